@@ -45,6 +45,12 @@ def state_case(draw):
     c["sched"] = draw(st.lists(st.sampled_from(["c", "s", "c", "s", "ce", "se", "cs", "ss"]), min_size=2, max_size=10))
     c["route"] = draw(st.sampled_from(["copy", "pickle", "bytes", "file"]))
     c["mut_seed"] = draw(st.integers(0, 2 ** 31))
+    # structural edits: one before the copy is taken, and a sequence applied identically to copy and source
+    c["pre_remove"] = draw(st.booleans())
+    c["both_ops"] = draw(st.one_of(
+        st.sampled_from([["add", "step"], ["add", "step2", "remove", "step"], ["remove", "step", "add", "step"],
+                         ["dt", "step2"], []]),
+        st.lists(st.sampled_from(["add", "remove", "step", "step2", "dt"]), max_size=4)))
     c["edits"] = draw(st.lists(st.tuples(st.sampled_from(
         ["dt", "t", "G", "x", "vz", "m", "r", "hash", "add", "remove", "softening", "steps", "N_active",
          "integrator", "safe_mode", "none", "walltime", "sync"]), st.integers(0, 7)), min_size=0, max_size=2))
@@ -80,6 +86,14 @@ def build_state(case, ctx):
         ctx.skip("setup raised")
         return None
     return sim
+
+
+def settle_keep(sim):
+    """Synchronise before an edit, as the docs require with safe_mode=0 (keep_unsynchronized is switched off:
+    editing particles while it is on is not allowed)."""
+    sim.ri_whfast.keep_unsynchronized = 0
+    sim.ri_saba.keep_unsynchronized = 0
+    sim.synchronize()
 
 
 def equal_both(a, b):
@@ -120,6 +134,11 @@ def run_copy(case, ctx):
     sim = build_state(case, ctx)
     if sim is None:
         return
+    structural_ok = case["extra"] in ("none", "testparticles") and not case.get("tree")
+    if case.get("pre_remove") and structural_ok and sim.N > 2:
+        settle_keep(sim)
+        sim.remove(sim.N - 1)
+        ctx.cls("pre_remove")
     m_src = rb.smap(sim)
     route = case["route"]
     if route == "copy":
@@ -145,6 +164,33 @@ def run_copy(case, ctx):
     c05.reattach(cp, case)
     if case.get("tree"):
         pass
+    # the same structural edits on both, then both must keep evolving identically
+    if structural_ok and case.get("both_ops"):
+        import math
+        try:
+            for j, o in enumerate(case["both_ops"]):
+                for target in (sim, cp):
+                    if o == "add":
+                        settle_keep(target)
+                        a = 30.0 + 7.0 * j
+                        target.add(m=1e-7, x=a, vy=math.sqrt(target.G * target.particles[0].m / a))
+                    elif o == "remove" and target.N > 2:
+                        settle_keep(target)
+                        target.remove(target.N - 1)
+                    elif o == "dt":
+                        settle_keep(target)
+                        target.dt = target.dt * 0.75
+                    elif o == "step":
+                        target.steps(1)
+                    elif o == "step2":
+                        target.steps(2)
+                if sim.N != cp.N or c05.core_state(sim) != c05.core_state(cp):
+                    raise Violation("copy (%s) and source differ after the same operation %r (#%d of %r) on both"
+                                    % (route, o, j, case["both_ops"]), route=route)
+        except (RuntimeError, rebound.Escape, rebound.Encounter, rebound.Collision, rebound.NoParticles):
+            ctx.skip("both-op raised")
+            return
+        ctx.cls("both_ops")
     # independence + identical evolution under an interleaving
     done_c = done_s = 0
     for tok in case["sched"]:
@@ -186,7 +232,9 @@ def run_copy(case, ctx):
     except RuntimeError:
         ctx.skip("step raised")
         return
-    keep_unsync = any(p[0].endswith("keep_unsynchronized") and p[1] == 1 for p in case["cfg"].get("set", []))
+    fam = case["cfg"]["family"]
+    keep_unsync = (fam == "whfast" and sim.ri_whfast.keep_unsynchronized == 1) or \
+                  (fam == "saba" and sim.ri_saba.keep_unsynchronized == 1)     # live value: edits switch it off
     safe0 = any(p[0].endswith("safe_mode") and p[1] == 0 for p in case["cfg"].get("set", []))
     intermediate_sync = any(len(t) == 2 for t in case["sched"])
     if safe0 and not keep_unsync and intermediate_sync:
@@ -359,6 +407,8 @@ def run_api(case, ctx):
     c05.reattach(cp, case)
     try:
         for kind, a in case["edits"]:
+            if kind in ("x", "vz", "m", "r", "add", "remove", "N_active", "dt"):
+                settle_keep(cp)     # docs: with safe_mode=0 synchronise before touching particles
             if kind == "dt":
                 cp.dt = cp.dt * (1.0 + 2.0 ** -(a + 40))
             elif kind == "t":
@@ -373,10 +423,6 @@ def run_api(case, ctx):
             elif kind == "add" and cp.N_var == 0:
                 cp.add(m=0.0, x=1000.0 + a)
             elif kind == "remove" and cp.N_var == 0 and cp.N > 2 and not case.get("tree"):
-                c05.apply_cfg  # noqa
-                cp.ri_whfast.keep_unsynchronized = 0
-                cp.ri_saba.keep_unsynchronized = 0
-                cp.synchronize()
                 cp.remove(cp.N - 1)
             elif kind == "softening":
                 cp.softening = cp.softening + 0.5
